@@ -40,6 +40,7 @@ LEVEL_TEXT = (
     "boundaries of each format and to hostile printable-ASCII names; what is loaded is compared with the generated "
     "mapping (names in order, sequences; PHYLIP names up to the writer's 9-character truncation). All FASTA parser "
     "variants, every line-chunk size and the GenBank parsers are compared with the generated records."
+    " The string writers (to_fasta / to_phylip, which take no explicit order) are read back by the line parsers, many objects per worker process."
 )
 LEVEL_NOTE = (
     "held = held on the executions listed in the evidence; trusted: Python str/list semantics, the harness's own "
